@@ -6,7 +6,7 @@
    hand-derived expectations (single faults), see DESIGN.md. *)
 From Coq Require Import List.
 From GQL.model Require Import Base Utf8 Lexer Ast Schema Walk Rules Rules2 Validate.
-From GQL.proofs Require Import RuleSpecs.
+From GQL.proofs Require Import RuleSpecs RuleSpecs2.
 Import ListNotations.
 
 (* 5.2.1.1 Operation Name Uniqueness *)
@@ -34,3 +34,29 @@ Theorem C08_valid_document_names : forall s doc, validate s doc = [] ->
   /\ (forall o, In o doc.(q_ops) -> o.(o_name) = [] -> length doc.(q_ops) <= 1)%nat.
 Proof. exact valid_document_names. Qed.
 Print Assumptions C08_valid_document_names.
+
+(* 5.8.1 Variable Uniqueness: within every operation no two variable definitions share a name *)
+Theorem C08_UniqueVariableNames : forall s doc,
+  run_events [r_UniqueVariableNames] (walk s doc) = [] <-> forall o, In o doc.(q_ops) -> NoDup (map vd_var o.(o_vars)).
+Proof. exact UniqueVariableNames_spec. Qed.
+Print Assumptions C08_UniqueVariableNames.
+
+(* 5.8.2 Variables Are Input Types: a variable whose type exists has a scalar, enum or input object type *)
+Theorem C08_VariablesAreInputTypes : forall s doc,
+  run_events [r_VariablesAreInputTypes s] (walk s doc) = []
+  <-> forall o v d, In o doc.(q_ops) -> In v o.(o_vars) -> stype s (type_name v.(vd_type)) = Some d -> kind_is_input d.(df_kind) = true.
+Proof. exact VariablesAreInputTypes_spec. Qed.
+Print Assumptions C08_VariablesAreInputTypes.
+
+(* 5.2.x root operation type: every operation's root type (query / mutation / subscription) exists *)
+Theorem C08_KnownRootType : forall s doc,
+  run_events [r_KnownRootType s] (walk s doc) = [] <-> forall o, In o doc.(q_ops) -> root_def s o.(o_op) <> None.
+Proof. exact KnownRootType_spec. Qed.
+Print Assumptions C08_KnownRootType.
+
+Theorem C08_valid_document_operations : forall s doc, validate s doc = [] ->
+  (forall o, In o doc.(q_ops) -> root_def s o.(o_op) <> None)
+  /\ (forall o, In o doc.(q_ops) -> NoDup (map vd_var o.(o_vars)))
+  /\ (forall o v d, In o doc.(q_ops) -> In v o.(o_vars) -> stype s (type_name v.(vd_type)) = Some d -> kind_is_input d.(df_kind) = true).
+Proof. exact valid_document_operations. Qed.
+Print Assumptions C08_valid_document_operations.
